@@ -19,6 +19,7 @@ func init() {
 	ops["ExtractMsg"] = opExtractMsg
 	ops["Proof"] = opProof
 	ops["ExtractTwice"] = opExtractMsg
+	ops["ExtractAgain"] = opExtractMsg
 	families["X02"] = runX02
 	families["C11"] = runC11
 	families["C12"] = runC12
@@ -112,13 +113,17 @@ func opExtractMsg(_ *HState, a Event) Event {
 		}
 		e["items"] = it
 		e["bad"] = pb.BadTree()
-		if gName(a, "op") == "ExtractTwice" { // growth X02: the same object asked again
+		if gName(a, "op") == "ExtractTwice" || gName(a, "op") == "ExtractAgain" { // the same object asked again (X02 strict, C12 relaxed)
 			r2 := pb.ExtractMatches()
 			it2 := []int{}
 			for _, x := range pb.GetItems() {
 				it2 = append(it2, int(x))
 			}
-			e["second"] = map[string]interface{}{"ok": r2 != nil, "bad": pb.BadTree(), "matches": hashesInts(pb.GetMatches()), "items": it2}
+			root2 := []int{}
+			if r2 != nil {
+				root2 = ints(r2[:])
+			}
+			e["second"] = map[string]interface{}{"ok": r2 != nil, "root": root2, "bad": pb.BadTree(), "matches": hashesInts(pb.GetMatches()), "items": it2}
 		}
 	})
 	if hung {
@@ -503,12 +508,18 @@ func runC12(c *Ctx) {
 		}
 		extract(n, [][]byte{atoms[1], atoms[2], atoms[0]}, []byte{0x1f})
 	}
+	// the same object asked a second time: it either refuses, or gives the same answer again (never more matches)
+	twice(c, "ExtractAgain", c.Pick(60, 600))
 }
 
 // growth X02: PartialBlock objects are single-use
-func runX02(c *Ctx) {
+func runX02(c *Ctx) { twice(c, "ExtractTwice", c.Pick(300, 3000)) }
+
+// twice: honest proofs extracted twice from the same object (op = ExtractTwice: strict single-use reading of X02;
+// op = ExtractAgain: what C12 itself demands of a second call)
+func twice(c *Ctx, op string, rounds int) {
 	r := c.Rng
-	for k := 0; k < c.Pick(300, 3000); k++ {
+	for k := 0; k < rounds; k++ {
 		n := 1 + r.Intn(40)
 		blk := mkBlock(n, r.Uint32())
 		var set []*chainhash.Hash
@@ -527,6 +538,6 @@ func runX02(c *Ctx) {
 		if k%3 == 0 && len(flags) > 0 { // non-canonical padding bits (accepted by the first extraction)
 			flags[len(flags)-1] |= 0x80
 		}
-		c.Call(Event{"op": "ExtractTwice", "ntx": w32(m.Transactions), "hashes": hl, "flags": ints(flags)})
+		c.Call(Event{"op": op, "ntx": w32(m.Transactions), "hashes": hl, "flags": ints(flags)})
 	}
 }
